@@ -217,6 +217,65 @@ def run(ctx):
                     violation(ctx, "model/implementation correspondence broken (ESH update): %s" % diffs[0],
                               {"case": c, "draw": d["draw"], "call": call, "differences": diffs,
                                "correspondence": "model/Mclmc.v esh_update vs CpuMath::esh_momentum_update"}, found_input=False)
+    # the ESH update over the whole range of delta = step * |g| / (n - 1) (chains only produce small
+    # ones): direct calls of CpuMath::esh_momentum_update, compared with the closed form
+    ok3, out3 = build_harness(["kernels"])
+    ctx.oblig("harness-build-kernels", ok3, out3[-2000:])
+    if ok3:
+        import struct as _st
+        f2b = lambda x: str(_st.unpack("<Q", _st.pack("<d", float(x)))[0])
+        r = ctx.rnd()
+        ecases = []
+        for cid in range(200 if quick else 3000):
+            n = r.choice([2, 2, 3, 5, 10, 50])
+            g = [r.gauss(0, 1) for _ in range(n)]
+            gn = math.sqrt(sum(x * x for x in g))
+            p = [r.gauss(0, 1) for _ in range(n)]
+            pn = math.sqrt(sum(x * x for x in p))
+            p = [x / pn for x in p]
+            delta = 10.0 ** r.uniform(-6, 2.6)
+            scale = r.choice([1e-3, 1.0, 1e3])
+            g = [x * scale for x in g]
+            step = delta * (n - 1) / (gn * scale)
+            ecases.append({"id": cid, "op": "esh", "n": n, "x": [f2b(v) for v in g], "y": [f2b(v) for v in p], "a": f2b(step)})
+        eouts, eerrs = run_harness_parallel("kernels", ecases)
+        ctx.oblig("harness-run-esh", not eerrs and len(eouts) == len(ecases), "\n".join(eerrs)[:1500])
+        nesh = 0
+        dmax = 0.0
+        for c in ecases:
+            o = eouts.get(c["id"])
+            if not o or "panic" in o:
+                if o:
+                    bad(c, "esh_momentum_update panicked: %s" % o["panic"])
+                continue
+            ctx.evaluations += 1
+            n = c["n"]
+            g = [b2f(v) for v in c["x"]]
+            p = [b2f(v) for v in c["y"]]
+            step = b2f(c["a"])
+            gn = math.sqrt(sum(x * x for x in g))
+            gh = [x / gn for x in g]
+            alpha = sum(a * b_ for a, b_ in zip(p, gh))
+            delta = step * gn / (n - 1)
+            dmax = max(dmax, delta)
+            z = math.exp(-delta)
+            raw = [(1 - z) * (1 + z + alpha * (1 - z)) * a + 2 * z * b_ for a, b_ in zip(gh, p)]
+            rn = math.sqrt(sum(x * x for x in raw))
+            want = [x / rn for x in raw]
+            got = [b2f(v) for v in o["v"]]
+            dke = (delta - math.log(2.0) + math.log1p(alpha + (1 - alpha) * z * z)) * (n - 1)
+            got_dke = b2f(o["s"][0])
+            if any(abs(a - b_) > 1e-9 for a, b_ in zip(want, got)):
+                nesh += 1
+                bad(c, "ESH momentum update differs from the closed form for delta = %r (dimension %d)" % (delta, n))
+            elif abs(sum(x * x for x in got) - 1.0) > 1e-9:
+                nesh += 1
+                bad(c, "momentum norm^2 %r after the ESH update for delta = %r" % (sum(x * x for x in got), delta))
+            elif abs(dke - got_dke) > 1e-7 * max(1.0, abs(dke)):
+                nesh += 1
+                bad(c, "ESH update reports kinetic energy change %r, the closed form gives %r (delta = %r, dimension %d)" % (got_dke, dke, delta, n))
+        stats["direct_esh_calls"] = len(ecases)
+        stats["direct_esh_max_delta"] = dmax
     ctx.oblig("correspondence-mclmc", ndiff == 0, "%d differences" % ndiff)
     ctx.oblig("impl-audit-C18", nbad == 0, "%d failures" % nbad)
     ctx.notes["input_distribution"] = stats
